@@ -120,7 +120,13 @@ func RunSched(r *Run, spec SchedSpec) *vsync.Stats {
 		if len(first) > 160 {
 			first = first[:160]
 		}
-		r.AddViolation(Violation{Key: spec.Name + ":" + f.Kind + "|" + first, What: f.What, Engine: "SCHED:" + spec.Name,
+		key := spec.Name + ":" + f.Kind + "|" + first
+		if i := strings.Index(f.What, "::"); f.Kind == "oracle" && i > 0 && i < 80 {
+			// the oracle names the violated clause: "<clause>::<text>"
+			key = f.What[:i] + "|" + spec.Name
+			f.What = f.What[i+2:]
+		}
+		r.AddViolation(Violation{Key: key, What: f.What, Engine: "SCHED:" + spec.Name,
 			Replay: map[string]interface{}{"worker": spec.WorkerArgs, "scenario": spec.Scenario, "choices": f.Choices, "labels": f.Labels, "horizon": spec.Horizon}})
 	}
 	var outcomes []string
